@@ -133,8 +133,8 @@ class CircleAnnulusPixelRegion(AnnulusPixelRegion):
         self.center = center
         self.inner_radius = inner_radius
         self.outer_radius = outer_radius
-        self.meta = meta or RegionMeta()
-        self.visual = visual or RegionVisual()
+        self.meta = RegionMeta() if meta is None else meta
+        self.visual = RegionVisual() if visual is None else visual
 
         if inner_radius >= outer_radius:
             raise ValueError('outer_radius must be greater than inner_radius')
@@ -191,8 +191,8 @@ class CircleAnnulusSkyRegion(SkyRegion):
         self.center = center
         self.inner_radius = inner_radius
         self.outer_radius = outer_radius
-        self.meta = meta or RegionMeta()
-        self.visual = visual or RegionVisual()
+        self.meta = RegionMeta() if meta is None else meta
+        self.visual = RegionVisual() if visual is None else visual
 
         if inner_radius >= outer_radius:
             raise ValueError('outer_radius must be greater than inner_radius')
@@ -261,8 +261,8 @@ class AsymmetricAnnulusPixelRegion(AnnulusPixelRegion):
         self.inner_height = inner_height
         self.outer_height = outer_height
         self.angle = angle
-        self.meta = meta or RegionMeta()
-        self.visual = visual or RegionVisual()
+        self.meta = RegionMeta() if meta is None else meta
+        self.visual = RegionVisual() if visual is None else visual
 
         if inner_width >= outer_width:
             raise ValueError('outer_width must be greater than inner_width')
@@ -351,8 +351,8 @@ class AsymmetricAnnulusSkyRegion(SkyRegion):
         self.inner_height = inner_height
         self.outer_height = outer_height
         self.angle = angle
-        self.meta = meta or RegionMeta()
-        self.visual = visual or RegionVisual()
+        self.meta = RegionMeta() if meta is None else meta
+        self.visual = RegionVisual() if visual is None else visual
 
         if inner_width >= outer_width:
             raise ValueError('outer_width must be greater than inner_width')
